@@ -267,3 +267,55 @@ def c12(tier, replay=None):
                        "methods, literals produced by different computations, re-builds and look-ups; distinct = behaviours/histories")
     chk.part("harness", **info)
     return chk.finish()
+
+
+# ------------------------------------------------------------------------------------------------
+def segment(lines, k, marker):
+    """the events from the last `marker` line up to line k (0-based) of a stateful trace"""
+    s = k
+    while s > 0 and marker not in lines[s]:
+        s -= 1
+    return [json.loads(x) for x in lines[s:k + 1]]
+
+
+def stateful_check(chk, module, trace, marker, sigf, shards=12, keep=60):
+    """validate a stateful trace sharded at reset markers; report every TLC rejection with its segment"""
+    rejects, st = pv.validate(module, pv.SPEC / "Trace.cfg", trace, shards=shards, boundary=marker)
+    harness_rejects(rejects)
+    chk.add_states(st["generated"], st["distinct"])
+    lines = None
+    for rj in rejects:
+        if lines is None:
+            lines = Path(trace).read_text().splitlines()
+        seg = segment(lines, rj["l"] - 1, marker)
+        chk.report(sigf(rj, seg), {"events": seg[:1] + seg[-keep:] if len(seg) > keep + 1 else seg, "tlc": rj})
+    return st
+
+
+def c07(tier, replay=None):
+    chk = Check("C07", tier, "model_checking")
+    T = chk.thorough()
+    trace = chk.work / "trace.ndjson"
+    hist, gen, dist = pv.generate("SimGen", {"Depth": 5 if T else 4}, "simgen", workers=4, deps=["SimGen"])
+    if gen:
+        chk.add_states(gen, dist)
+    if replay:
+        rep = json.loads(Path(replay).read_text())
+        pv.write_ndjson(trace, rep["detail"]["events"])
+        info = {"histories": 1}
+    else:
+        pv.write_ndjson(chk.work / "hist.ndjson", hist)
+        p = pv.pv(["c07", "--in", chk.work / "hist.ndjson", "--out", trace, "--systems", 3000 if T else 400, "--len", 120 if T else 40])
+        info = json.loads(p.stdout.strip().splitlines()[-1])
+    st = stateful_check(chk, "Trace_C07", trace, '"ev":"Sys"', lambda rj, seg: {"why": rj["why"], "ev": rj.get("ev", ""), "loc": seg[-1].get("loc", "")})
+    chk.cov["traces_validated_against_impl"] = info["histories"]
+    chk.cov["evaluations"] = st["records"]
+    chk.cov["distinct_nontrivial"] = info["histories"]
+    chk.cov["rule"] = (f"all {len(hist)} call histories of length {5 if T else 4} from SimGen.tla on four fixed systems (swap, init chain, array memory + "
+                       "constant/next-less states, 65/129-bit values) + seeded random systems x random histories; after every call the full store is "
+                       "read back and compared by TLC with the Sim machine of Trace_C07; distinct = histories")
+    chk.sample({"history": hist[len(hist) // 2]})
+    chk.part("harness", **info)
+    chk.assumptions += ["random initialisation is only constrained as far as the property goes (init expressions hold; same seed, same values)",
+                        "restore may or may not restore inputs (trait doc and code disagree; the property is silent)"]
+    return chk.finish()
